@@ -205,6 +205,9 @@ def monOp (op : String) (args : List String) : Option String :=
     let (sa, _) ← pNat ts
     let amp := match p.ptype with | .stable a => a | .cp => 1
     some (verdict (monSsLp amp p.decimals (p.assets.map (·.amount)) after sb sa))
+  | "mon_toggle" => do
+    let (good, _) ← pBit args
+    some (if good then "ok" else "viol C17-toggle-effect")
   | "mon_pos_changed" => do
     let (own, _) ← pBit args
     some (if own then "ok" else "viol C08-foreign-change")
